@@ -2,10 +2,13 @@ import PyAirtouch.Lemmas.SockOrder
 /-!
 # Nothing stays queued on an idle connection
 
-While the socket is connected, the queue can only be non-empty if some task is still going to run
-the drain loop or to tear the connection down: a task suspended in `drain()`, the connect task
+While the socket is connected **and its current transport is still open** (`curLive`), the queue can
+only be non-empty if some task is still going to run the drain loop or to tear the connection down: a task suspended in `drain()`, the connect task
 between `opened` and its first drain, a `close()` waiting for the background tasks, or a task
 waiting for the *current* transport to finish closing.  (`IInv`, `idle_invariant`.)
+
+Once the current transport is closing or lost the drain loop leaves the queue alone (`_drain_message_queue`
+returns at `writer.is_closing()`), so entries then legitimately stay queued until the reset that follows.
 -/
 namespace PyAirtouch.Lemmas.SockIdle
 open PyAirtouch.Model.Sock PyAirtouch.Spec.Trace PyAirtouch.Lemmas.Sock
@@ -47,23 +50,50 @@ theorem okPc_of_start {p : Pc} (h : startPc p = true) : okPc p = true := by
 
 def Pre (c : Core) : Prop := c.isConnected = true → c.rw.isSome = true
 
-/-- connection state unchanged, queue not refilled -/
+/-- there is a current transport and it is open (neither closing nor lost) -/
+def curLive (c : Core) : Bool :=
+  match c.rw with
+  | some w => (c.conns[w]?.map ConnSt.isLive).getD false
+  | none => false
+
+/-- changing the state of one transport does not make the current one live again -/
+theorem curLive_set {c : Core} {cid : Nat} {x : ConnSt}
+    (h : x.isLive = true → ∃ y, c.conns[cid]? = some y ∧ y.isLive = true) :
+    curLive { c with conns := c.conns.set cid x } = true → curLive c = true := by
+  unfold curLive
+  cases hrw : c.rw with
+  | none => simp
+  | some w =>
+    simp only [List.getElem?_set]
+    intro hl
+    by_cases hw : cid = w
+    · subst hw
+      by_cases hlt : cid < c.conns.length
+      · simp only [hlt, ↓reduceIte, Option.map_some, Option.getD_some] at hl
+        obtain ⟨y, hy, hyl⟩ := h hl
+        simp [hy, hyl]
+      · simp [hlt] at hl
+    · simpa [hw] using hl
+
+/-- connection state unchanged, queue not refilled, current transport not revived -/
 structure Same (c c' : Core) : Prop where
   conn : c'.isConnected = c.isConnected
   rw : c'.rw = c.rw
   q : c'.queue ≠ [] → c.queue ≠ []
+  live : curLive c' = true → curLive c = true
 
-theorem Same.refl (c : Core) : Same c c := ⟨rfl, rfl, id⟩
+theorem Same.refl (c : Core) : Same c c := ⟨rfl, rfl, id, id⟩
 
 theorem Same.trans {a b c : Core} (h1 : Same a b) (h2 : Same b c) : Same a c :=
-  ⟨h2.conn.trans h1.conn, h2.rw.trans h1.rw, fun h => h1.q (h2.q h)⟩
+  ⟨h2.conn.trans h1.conn, h2.rw.trans h1.rw, fun h => h1.q (h2.q h), fun h => h1.live (h2.live h)⟩
 
 theorem Same.pre {c c' : Core} (h : Same c c') (hp : Pre c) : Pre c' := by
   intro hc; rw [h.rw]; exact hp (h.conn ▸ hc)
 
-/-- after the block: disconnected, or queue empty, or the task itself will deal with the queue -/
+/-- after the block: disconnected, or queue empty, or the current transport is no longer open, or the task
+    itself will deal with the queue -/
 def Post (o : Out) : Prop :=
-  o.core.isConnected = true → o.core.queue ≠ [] → promising o.core.rw o.pc = true
+  o.core.isConnected = true → o.core.queue ≠ [] → curLive o.core = true → promising o.core.rw o.pc = true
 
 structure OutOk (o : Out) : Prop where
   pre : Pre o.core
@@ -82,7 +112,7 @@ theorem ret_plain (fuel : Nat) : ∀ (c : Core) (sp : List Pc) (r : Ret), plainR
     intro c sp r hr h
     cases r with
     | done => exact ⟨Same.refl _, rfl, h⟩
-    | closeTail => exact ⟨⟨rfl, rfl, id⟩, rfl, h⟩
+    | closeTail => exact ⟨⟨rfl, rfl, id, id⟩, rfl, h⟩
     | connAfterNotify => simp [plainRet] at hr
     | connAfterDrain =>
       refine ⟨Same.refl _, rfl, ?_⟩
@@ -142,7 +172,8 @@ theorem disconnected_ok (o : Out) (r : Ret) (hr : plainRet r = true) (e1 : o.cor
 theorem closeConn_same (c : Core) (w : Nat) : Same c (closeConn c w) := by
   unfold closeConn
   split
-  · exact ⟨rfl, rfl, id⟩
+  · refine ⟨rfl, rfl, id, ?_⟩
+    exact curLive_set (c := c) (cid := w) (x := .dying false) (fun h => by cases h)
   · exact Same.refl _
 
 theorem disconnect_idle (fuel : Nat) (h2 : 2 ≤ fuel) (c : Core) (sp : List Pc) (r : Ret) (hr : plainRet r = true)
@@ -155,22 +186,28 @@ theorem disconnect_idle (fuel : Nat) (h2 : 2 ≤ fuel) (c : Core) (sp : List Pc)
   · rename_i w hw
     have hs := closeConn_same c w
     refine ⟨⟨hs.pre hpre, by simpa [okPc] using hr, hsp⟩, ?_⟩
-    intro _ _
+    intro _ _ _
     simp [promising, hs.rw, hw]
   · rename_i hw
     obtain ⟨_, d2, d3⟩ := discTail_idle n c sp none r hr hsp
     obtain ⟨e1, e2⟩ := d3 hn hw
     exact disconnected_ok _ r hr e1 e2 d2
 
+/-- the drain loop stops without a suspension only when the queue is empty or the transport it writes to is
+    no longer open -/
 theorem drainLoop_fields (w : Nat) : ∀ (q : List Entry) (c : Core),
     (drainLoop c w q).1.isConnected = c.isConnected ∧ (drainLoop c w q).1.rw = c.rw ∧
-    ((drainLoop c w q).2 = .empty → (drainLoop c w q).1.queue = []) := by
+    ((drainLoop c w q).2 = .empty → (drainLoop c w q).1.queue = [] ∨
+      ((drainLoop c w q).1.conns[w]?.map ConnSt.isLive).getD false = false) := by
   intro q
   induction q with
   | nil => intro c; simp [drainLoop]
   | cons e rest ih =>
     intro c
     unfold drainLoop
+    split
+    · rename_i hnl
+      exact ⟨rfl, rfl, fun _ => .inr (by simpa using hnl)⟩
     split
     · exact ih _
     · split
@@ -199,13 +236,15 @@ theorem drain_idle (fuel : Nat) (h3 : 3 ≤ fuel) (c : Core) (sp : List Pc) (r :
   obtain ⟨n, rfl⟩ : ∃ n, fuel = n + 1 := ⟨fuel - 1, by omega⟩
   have hn : 2 ≤ n := by omega
   simp only [exec]
-  have hret : ∀ c' : Core, Pre c' → (c'.isConnected = true → c'.queue = []) →
+  have hret : ∀ c' : Core, Pre c' → (c'.isConnected = true → c'.queue = [] ∨ curLive c' = false) →
       OutOk (exec n c' sp (.ret r)) ∧ Post (exec n c' sp (.ret r)) := by
     intro c' hp hq
     obtain ⟨r1, r2, r3⟩ := ret_plain n c' sp r hr hsp
     refine ⟨⟨r1.pre hp, okPc_of_quiet r2, r3⟩, ?_⟩
-    intro hc hne
-    exact absurd (hq (r1.conn ▸ hc)) (r1.q hne)
+    intro hc hne hl
+    rcases hq (r1.conn ▸ hc) with hq | hq
+    · exact absurd hq (r1.q hne)
+    · rw [r1.live hl] at hq; cases hq
   split
   · rename_i hnc
     exact hret c hpre (fun h => by simp [h] at hnc)
@@ -219,12 +258,15 @@ theorem drain_idle (fuel : Nat) (h3 : 3 ≤ fuel) (c : Core) (sp : List Pc) (r :
       · rename_i c' heq
         obtain ⟨f1, f2, f3⟩ := drainLoop_fields w c.queue c
         rw [heq] at f1 f2 f3
-        refine hret c' ?_ (fun _ => f3 rfl)
-        intro hc; rw [f2]; exact hpre (f1 ▸ hc)
+        refine hret c' ?_ (fun _ => ?_)
+        · intro hc; rw [f2]; exact hpre (f1 ▸ hc)
+        · rcases f3 rfl with f3 | f3
+          · exact .inl f3
+          · right; unfold curLive; rw [f2, hw]; exact f3
       · rename_i c' e heq
         obtain ⟨f1, f2, _⟩ := drainLoop_fields w c.queue c
         rw [heq] at f1 f2
-        refine ⟨⟨?_, by simpa [okPc] using hr, hsp⟩, fun _ _ => rfl⟩
+        refine ⟨⟨?_, by simpa [okPc] using hr, hsp⟩, fun _ _ _ => rfl⟩
         intro hc; rw [f2]; exact hpre (f1 ▸ hc)
       · rename_i c' e heq
         obtain ⟨f1, f2, _⟩ := drainLoop_fields w c.queue c
@@ -246,7 +288,8 @@ theorem connAfterNotify_idle (fuel : Nat) (h4 : 4 ≤ fuel) (c : Core) (sp : Lis
 structure IInv (s : Sys) : Prop where
   pre : Pre s.core
   pcs : ∀ k ∈ s.tasks, okPc k.pc = true
-  busy : s.core.isConnected = true → s.core.queue ≠ [] → ∃ k ∈ s.tasks, promising s.core.rw k.pc = true
+  busy : s.core.isConnected = true → s.core.queue ≠ [] → curLive s.core = true →
+    ∃ k ∈ s.tasks, promising s.core.rw k.pc = true
 
 theorem mem_modify_self {α : Type} (f : α → α) : ∀ (l : List α) (t : Nat) (y : α), l[t]? = some y →
     f y ∈ l.modify t f := by
@@ -316,9 +359,9 @@ theorem upd_pcs (s : Sys) (t : Nat) (out : Out) (h : ∀ k ∈ s.tasks, okPc k.p
 theorem IInv.upd_post {s : Sys} (h : IInv s) {t : Nat} {p : Pc} (hp : pcAt s t = some p) (out : Out)
     (ho : OutOk out) (hpost : Post out) : IInv (upd s t out) := by
   refine ⟨ho.pre, upd_pcs s t out h.pcs ho.pc ho.sp, ?_⟩
-  intro hc hq
+  intro hc hq hl
   obtain ⟨k, hk, _⟩ := pcAt_get hp
-  refine ⟨{ k with pc := out.pc }, ?_, hpost hc hq⟩
+  refine ⟨{ k with pc := out.pc }, ?_, hpost hc hq hl⟩
   simp only [upd, List.mem_append]
   exact .inl (mem_modify_self _ _ _ _ hk)
 
@@ -327,9 +370,9 @@ theorem IInv.upd_same {s : Sys} (h : IInv s) {t : Nat} {p : Pc} (hp : pcAt s t =
     (hnp : promising s.core.rw p = false) (out : Out) (hs : Same s.core out.core)
     (hpc : okPc out.pc = true) (hsp : ∀ p ∈ out.spawned, startPc p = true) : IInv (upd s t out) := by
   refine ⟨hs.pre h.pre, upd_pcs s t out h.pcs hpc hsp, ?_⟩
-  intro hc hq
+  intro hc hq hl
   obtain ⟨k, hk, hkp⟩ := pcAt_get hp
-  obtain ⟨k', hk', hpr⟩ := h.busy (hs.conn ▸ hc) (hs.q hq)
+  obtain ⟨k', hk', hpr⟩ := h.busy (hs.conn ▸ hc) (hs.q hq) (hs.live hl)
   simp only [upd]
   rcases mem_modify_other (fun k => { k with pc := out.pc }) _ _ _ _ hk' hk with hm | rfl
   · refine ⟨k', List.mem_append_left _ hm, ?_⟩
@@ -350,15 +393,15 @@ theorem api_pcs (ts : List Task) (c : Core) (out : Out) (h : ∀ k ∈ ts, okPc 
 theorem IInv.api_post (ts : List Task) (c : Core) (h : ∀ k ∈ ts, okPc k.pc = true) (out : Out)
     (ho : OutOk out) (hpost : Post out) : IInv (spawnApi ⟨c, ts⟩ out) := by
   refine ⟨ho.pre, api_pcs ts c out h ho.pc ho.sp, ?_⟩
-  intro hc hq
-  refine ⟨⟨out.pc, false⟩, ?_, hpost hc hq⟩
+  intro hc hq hl
+  refine ⟨⟨out.pc, false⟩, ?_, hpost hc hq hl⟩
   simp [spawnApi]
 
 theorem IInv.api_same {s : Sys} (h : IInv s) (out : Out) (hs : Same s.core out.core)
     (hpc : okPc out.pc = true) (hsp : ∀ p ∈ out.spawned, startPc p = true) : IInv (spawnApi s out) := by
   refine ⟨hs.pre h.pre, api_pcs s.tasks s.core out h.pcs hpc hsp, ?_⟩
-  intro hc hq
-  obtain ⟨k', hk', hpr⟩ := h.busy (hs.conn ▸ hc) (hs.q hq)
+  intro hc hq hl
+  obtain ⟨k', hk', hpr⟩ := h.busy (hs.conn ▸ hc) (hs.q hq) (hs.live hl)
   refine ⟨k', ?_, ?_⟩
   · simp [spawnApi, hk']
   · show promising out.core.rw k'.pc = true
@@ -392,7 +435,7 @@ theorem step_run_iinv (s s' : Sys) (t : Nat) (a : Answer) (hI : IInv s)
     unfold connectBlock
     split
     · exact ⟨Same.refl _, rfl, by simp⟩
-    · exact ⟨⟨rfl, rfl, id⟩, rfl, by simp⟩
+    · exact ⟨⟨rfl, rfl, id, id⟩, rfl, by simp⟩
   have hdisc : ∀ (c : Core) (r : Ret), plainRet r = true → Pre c →
       OutOk (exec FUEL c [] (.disconnect r)) ∧ Post (exec FUEL c [] (.disconnect r)) :=
     fun c r hr hp => disconnect_idle FUEL (by decide) c [] r hr (by simp) hp
@@ -408,18 +451,18 @@ theorem step_run_iinv (s s' : Sys) (t : Nat) (a : Answer) (hI : IInv s)
     exact hI.upd_same hp rfl _ hcb.1 hcb.2.1 hcb.2.2
   · rename_i hp
     injection h with h; subst h
-    refine hI.upd_post hp _ ⟨?_, rfl, by simp⟩ (fun _ _ => rfl)
+    refine hI.upd_post hp _ ⟨?_, rfl, by simp⟩ (fun _ _ _ => rfl)
     intro _; simp [Core.emit]
   · rename_i hp
     injection h with h; subst h
-    refine hI.upd_same hp rfl _ ⟨rfl, rfl, id⟩ rfl ?_
+    refine hI.upd_same hp rfl _ ⟨rfl, rfl, id, id⟩ rfl ?_
     intro p hp'
     split at hp'
     · simp only [List.mem_singleton] at hp'; subst hp'; rfl
     · simp at hp'
   · rename_i hp
     injection h with h; subst h
-    exact hI.upd_same hp rfl _ ⟨rfl, rfl, id⟩ rfl (by simp)
+    exact hI.upd_same hp rfl _ ⟨rfl, rfl, id, id⟩ rfl (by simp)
   · rename_i w e r hp
     injection h with h; subst h
     have hr : plainRet r = true := by simpa [okPc] using hok _ hp
@@ -463,7 +506,7 @@ theorem step_run_iinv (s s' : Sys) (t : Nat) (a : Answer) (hI : IInv s)
     exact hI.upd_same hp rfl _ r1 (okPc_of_quiet r2) r3
   · rename_i c tag hp
     injection h with h; subst h
-    exact hI.upd_same hp rfl _ ⟨rfl, rfl, id⟩ rfl (by simp)
+    exact hI.upd_same hp rfl _ ⟨rfl, rfl, id, id⟩ rfl (by simp)
   · rename_i hp
     injection h with h; subst h
     obtain ⟨h1, h2⟩ := hdisc s.core (.resetTail .readLoop) rfl hI.pre
@@ -493,8 +536,8 @@ theorem step_run_iinv (s s' : Sys) (t : Nat) (a : Answer) (hI : IInv s)
 
 theorem IInv.env {s : Sys} (h : IInv s) (c' : Core) (hs : Same s.core c') : IInv { s with core := c' } := by
   refine ⟨hs.pre h.pre, h.pcs, ?_⟩
-  intro hc hq
-  obtain ⟨k', hk', hpr⟩ := h.busy (hs.conn ▸ hc) (hs.q hq)
+  intro hc hq hl
+  obtain ⟨k', hk', hpr⟩ := h.busy (hs.conn ▸ hc) (hs.q hq) (hs.live hl)
   refine ⟨k', hk', ?_⟩
   show promising c'.rw k'.pc = true
   rw [hs.rw]; exact hpr
@@ -505,50 +548,57 @@ theorem step_iinv (s s' : Sys) (l : Label) (hI : IInv s) (h : step s l = some s'
     simp only [step] at h
     split at h
     · injection h with h; subst h
-      exact hI.env _ ⟨rfl, rfl, id⟩
+      exact hI.env _ ⟨rfl, rfl, id, id⟩
     · simp at h
   | envLost cid =>
     simp only [step] at h
     split at h
     · injection h with h; subst h
-      exact hI.env _ ⟨rfl, rfl, id⟩
+      refine hI.env _ ⟨rfl, rfl, id, ?_⟩
+      exact curLive_set (c := s.core) (cid := cid) (x := .dying true) (fun h => by cases h)
     · simp at h
   | envLostRan cid =>
     simp only [step] at h
     split at h
-    · injection h with h; subst h
-      exact hI.env _ ⟨rfl, rfl, id⟩
+    · rename_i e _
+      injection h with h; subst h
+      refine hI.env _ ⟨rfl, rfl, id, ?_⟩
+      exact curLive_set (c := s.core) (cid := cid) (x := .dead e) (fun h => by cases h)
     · simp at h
   | envPause cid b =>
     simp only [step] at h
     split at h
-    · injection h with h; subst h
-      exact hI.env _ ⟨rfl, rfl, id⟩
+    · rename_i heq
+      injection h with h; subst h
+      refine hI.env _ ⟨rfl, rfl, id, ?_⟩
+      exact curLive_set (c := s.core) (cid := cid) (fun _ => ⟨_, heq, rfl⟩)
     · simp at h
   | envFailWrites cid b =>
     simp only [step] at h
     split at h
-    · injection h with h; subst h
-      exact hI.env _ ⟨rfl, rfl, id⟩
+    · rename_i heq
+      injection h with h; subst h
+      refine hI.env _ ⟨rfl, rfl, id, ?_⟩
+      exact curLive_set (c := s.core) (cid := cid) (fun _ => ⟨_, heq, rfl⟩)
     · simp at h
   | apiOpen =>
     simp only [step] at h
     split at h
     · injection h with h; subst h
-      exact hI.api_same _ ⟨rfl, rfl, id⟩ rfl (by simp)
+      exact hI.api_same _ ⟨rfl, rfl, id, id⟩ rfl (by simp)
     · injection h with h; subst h
-      refine hI.api_same _ ⟨rfl, rfl, id⟩ rfl ?_
+      refine hI.api_same _ ⟨rfl, rfl, id, id⟩ rfl ?_
       intro p hp; simp only [List.mem_singleton] at hp; subst hp; rfl
   | apiClose =>
     simp only [step] at h
     split at h
     · injection h with h; subst h
-      exact hI.api_same _ ⟨rfl, rfl, id⟩ rfl (by simp)
+      exact hI.api_same _ ⟨rfl, rfl, id, id⟩ rfl (by simp)
     · have hpre : Pre { s.core.emit (.apiClose s.core.now) with isOpen := false } := hI.pre
       have hts := cancel_pcs _ hI.pcs
       split at h
       · injection h with h; subst h
-        exact IInv.api_post _ _ hts _ ⟨hpre, rfl, by simp⟩ (fun _ _ => rfl)
+        exact IInv.api_post _ _ hts _ ⟨hpre, rfl, by simp⟩ (fun _ _ _ => rfl)
       · injection h with h; subst h
         obtain ⟨h1, h2⟩ := disconnect_idle FUEL (by decide)
           { s.core.emit (.apiClose s.core.now) with isOpen := false } [] .closeTail rfl (by simp) hpre
@@ -564,10 +614,10 @@ theorem step_iinv (s s' : Sys) (l : Label) (hI : IInv s) (h : step s l = some s'
     simp only [step] at h
     split at h
     · injection h with h; subst h
-      exact hI.api_same _ ⟨rfl, rfl, id⟩ rfl (by simp)
+      exact hI.api_same _ ⟨rfl, rfl, id, id⟩ rfl (by simp)
     · split at h
       · injection h with h; subst h
-        refine hI.api_same _ ⟨rfl, rfl, ?_⟩ rfl (by simp)
+        refine hI.api_same _ ⟨rfl, rfl, ?_, id⟩ rfl (by simp)
         intro hq hnil
         apply hq
         simp [Core.emit, purged, hnil]
